@@ -2,6 +2,7 @@ package main
 
 import (
 	"bytes"
+	"crypto/sha1"
 	"encoding/json"
 	"fmt"
 	"io"
@@ -168,9 +169,13 @@ func goroutineSummary(s *stack.Snapshot) []string {
 		return out
 	}
 	for _, g := range s.Goroutines {
-		x := fmt.Sprintf("id=%d first=%v state=%d", g.ID, g.First, len(g.State))
+		// both runs parse the same bytes: every string must be the same string, not only as long
+		x := fmt.Sprintf("id=%d first=%v state=%q race=%v/%x", g.ID, g.First, g.State, g.RaceWrite, g.RaceAddr)
 		for _, c := range g.Stack.Calls {
-			x += fmt.Sprintf(" [%d %d:%d %s]", len(c.Func.Complete), len(c.RemoteSrcPath), c.Line, c.Args.String())
+			x += fmt.Sprintf(" [%x %x:%d %s]", sha1.Sum([]byte(c.Func.Complete)), sha1.Sum([]byte(c.RemoteSrcPath)), c.Line, c.Args.String())
+		}
+		for _, c := range g.CreatedBy.Calls {
+			x += fmt.Sprintf(" created[%x %x:%d]", sha1.Sum([]byte(c.Func.Complete)), sha1.Sum([]byte(c.RemoteSrcPath)), c.Line)
 		}
 		out = append(out, x)
 	}
